@@ -1281,6 +1281,10 @@ def sharing_docs() -> list[tuple[str, dict]]:
     return out
 
 
+def docs_clone(x):
+    return clone(x)
+
+
 def interplay_docs() -> list[tuple[str, dict]]:
     """Small documents, each combining two features whose generated code meets in one signature / class body / module
     namespace (defaults x argument order, reserved argument names x bodies, inherited defaults x narrowing, class
@@ -1338,6 +1342,26 @@ def interplay_docs() -> list[tuple[str, dict]]:
                  "a": dict(nul("object"), allOf=[R("Dog")]), "c": dict(nul("object"), oneOf=[R("Dog")]), "e": dict(nul("object"), anyOf=[R("Dog")]), "ra": dict(nul("object"), allOf=[R("Dog")]),
                  "day": dict(nul("string"), allOf=[{"type": "string", "format": "date"}]), "plain": dict(nul("object"), properties={"k": {"type": "string"}})}}}
         mk(f"typed_nullable_wrapper_{version}", schemas=S, version=version)
+    # an allOf child that re-declares inherited optional properties (bare / with a description / narrowed) and makes them mandatory:
+    # the parent, processed before or after the child, keeps its own optional properties
+    for order in (0, 1, 2):
+        parent = {"type": "object", "properties": {"name": {"type": "string"}, "born": {"type": "string", "format": "date"}, "age": {"type": "integer"}, "tags": {"type": "array", "items": {"type": "string"}},
+                                                   "pet": R("Item"), "score": {"type": "number"}, "kind": {"type": "string", "enum": ["a", "b"]}, "flag": {"type": "boolean"}, "uid": {"type": "string", "format": "uuid"}}}
+        bare = {"type": "object", "required": ["name", "born", "tags", "pet", "kind", "flag", "uid"],
+                "properties": {"name": {"type": "string"}, "born": {"type": "string", "format": "date"}, "tags": {"type": "array", "items": {"type": "string"}}, "pet": R("Item"), "kind": {"type": "string", "enum": ["a", "b"]},
+                               "flag": {"type": "boolean"}, "uid": {"type": "string", "format": "uuid"}}}
+        described = {"type": "object", "required": ["name", "age"], "properties": {"name": {"type": "string", "description": "again"}, "age": {"type": "integer", "example": 3}}}
+        narrowed = {"type": "object", "required": ["score", "name"], "properties": {"score": {"type": "integer"}, "name": {"type": "string", "enum": ["x", "y"]}}}
+        only_required = {"required": ["age", "born"]}
+        S = {"Item": {"type": "object", "properties": {"k": {"type": "string"}}}, "Parent": parent, "ChildBare": {"allOf": [R("Parent"), bare]}, "ChildDescribed": {"allOf": [R("Parent"), described]},
+             "ChildNarrowed": {"allOf": [R("Parent"), narrowed]}, "ChildOnlyRequired": {"allOf": [R("Parent"), only_required]}, "ChildReversed": {"allOf": [docs_clone(bare), R("Parent")]},
+             "GrandChild": {"allOf": [R("ChildBare"), {"type": "object", "properties": {"g": {"type": "integer"}}}]}, "Sibling": {"allOf": [R("Parent"), {"type": "object", "properties": {"s": {"type": "string"}}}]}}
+        if order == 1:
+            S = {k_: S[k_] for k_ in reversed(list(S))}
+        elif order == 2:
+            S = {k_: S[k_] for k_ in ("ChildBare", "Item", "Sibling", "Parent", "ChildReversed", "ChildNarrowed", "GrandChild", "ChildDescribed", "ChildOnlyRequired")}
+        mk(f"redeclared_required_{order}", schemas=S, paths={"/p": {"post": {"operationId": "post_p", "requestBody": {"content": {"application/json": {"schema": R("Parent")}}},
+                                                                              "responses": {"200": {"description": "ok", "content": {"application/json": {"schema": R("ChildBare")}}}}}}})
     # tags and operation ids named after the package's own modules and dunder files
     for tag in ("types", "errors", "client", "models", "api", "init", "__init__", "default", "py.typed", "import", "None"):
         mk(f"tag_{tag}", schemas={"M": {"type": "object", "properties": {"a": {"type": "string"}}}},
